@@ -8,13 +8,24 @@ from lift.core import sym_and, is_sym
 from harness import dw
 
 
-class ScriptedRoundErrors:
-    """P3 error estimator for the real driver loop.  In evaluation round r < rounds the solver picks a set of selected intervals
-    (error 1, all others 0); from round `rounds` on every error is 0, so the surplus error is 0 and a tolerance >= 0 stops the run.
-    is_global = True makes the strategy skip its own surplus computation (calc_global_error is a no-op)."""
+def _state_key(sa, d):
+    parts = []
+    for k in range(d):
+        objs = sa.refinement.get_refinement_container_for_dim(k).get_objects()
+        parts.append('-'.join('%g' % float(o.end) for o in objs))
+    import hashlib
+    return hashlib.md5('|'.join(parts).encode()).hexdigest()[:10]
 
-    def __init__(self, S, sa, d, rounds, max_sel=1, tag='r'):
-        self.S, self.sa, self.d, self.rounds, self.max_sel, self.tag = S, sa, d, rounds, max_sel, tag
+
+class ScriptedRoundErrors:
+    """P3 error estimator for the real driver loop of the dimension-wise strategy.  While fewer than `rounds` evaluations have
+    happened the solver picks the set of selected intervals (error 1, all others 0) - the choice variable is keyed by the current
+    refinement structure, so two runs that reach the same structure take the same decision; afterwards every error is 0, so the
+    surplus error is 0 and a tolerance >= 0 stops the run.  is_global = True makes the strategy skip its own surplus computation
+    (calc_global_error is a no-op).  pool limits the candidates to the first `pool` intervals (bounds the number of histories)."""
+
+    def __init__(self, sa, d, rounds, max_sel=1, pool=None):
+        self.sa, self.d, self.rounds, self.max_sel, self.pool = sa, d, rounds, max_sel, pool
         self.is_global = True
         self.round = -1
         self.k = 0
@@ -30,9 +41,10 @@ class ScriptedRoundErrors:
             self.round = r
             self.k = 0
             n = sum(self.sa.refinement.get_refinement_container_for_dim(k).size() for k in range(self.d))
-            if r < self.rounds:
-                subs = dw.subsets_upto(n, self.max_sel)
-                c = self.S.choice('%ssel%d' % (self.tag, r), len(subs))
+            if self.rounds is None or r < self.rounds:
+                m = n if self.pool is None else min(n, self.pool)
+                subs = dw.subsets_upto(m, self.max_sel)
+                c = lib.current_source().choice('sel_' + _state_key(self.sa, self.d), len(subs))
                 self.sel = set(subs[c])
             else:
                 self.sel = set()
